@@ -412,6 +412,20 @@ def addVote (n : Node) (v : VoteSet.Vote) (sigok : Bool) (peer : String) : Node 
         else n
   else n
 
+/-- `HeightVoteSet.SetPeerMaj23`, as the reactor calls it for a VoteSetMaj23 message of the node's
+    height (directly on the vote sets, not through the consensus queue; not logged): a peer claims
+    to have seen +2/3 for `bid`; from then on conflicting votes for that block are counted -/
+def setPeerMaj23 (n : Node) (height round : Int) (type : Nat) (peer : String) (bid : VoteSet.BlockID) : Node :=
+  if height ≠ n.height then n
+  else if type ≠ 1 ∧ type ≠ 2 then n
+  else
+    match getRound n round with
+    | none => n
+    | some rv =>
+      let rv' := if type = 1 then { rv with prevotes := VoteSet.setPeerMaj23 VoteSet.repaired rv.prevotes peer bid }
+                 else { rv with precommits := VoteSet.setPeerMaj23 VoteSet.repaired rv.precommits peer bid }
+      { n with rounds := n.rounds.map (fun x => if x.round = round then rv' else x) }
+
 /-- `handleTimeout` -/
 def handleTimeout (n : Node) (h r : Int) (s : Step) : Node :=
   if h ≠ n.height ∨ r < n.round ∨ (r = n.round ∧ s < n.step) then n
